@@ -241,6 +241,9 @@ fn run_dim<const D: usize>(rep: &Report, cn: &Cn, family: &str, alphabet: &[[f64
 
 fn main() {
     let args = parse_args();
+    if let Some(p) = &args.replay {
+        std::process::exit(vcore::replay::generic(p));
+    }
     silence_panics();
     let rep = Report::new("C18", &args);
     let thorough = args.tier == Tier::Thorough;
